@@ -305,3 +305,8 @@ R.SPEC["default_config"] = ZV(L.const("default_config"), "Config")
 # collections.Counter(iterable): some mapping element -> count (its content is irrelevant to every property; only that it is a finite mapping)
 R.EXTERNALS["collections.Counter"] = R.ExtFn(lambda ip, a, kw, node: (lambda d_: (ip.st.assume(L.is_dictlike(d_)), ZV(d_, "Dict[str,int]"))[1])(L.fresh("counter")))
 R.ATTRS[("Trace", "funcname")] = lambda ip, r: ZV(L.fn("trace_funcname", L.V, L.V)(r.term), "str")
+
+# the abstract store at the CLI level: its module listing (what SQLiteStore.list_modules is proved to return for the sqlite store: contracts/db.py)
+store_modules = declare_pred("store_modules", L.V, L.V, tag="Seq[str]")
+R.METHODS[("Store", "list_modules")] = lambda ip, r, a, k, n: ZV(store_modules(r.term), "Seq[str]")
+R.SPEC["str_join"] = SpecFn(lambda ip, a_, kw: ZS(L.fn("str_join", L.S, L.V, L.S)(as_str(a_[0]), as_v(a_[1]))), "str_join")
